@@ -301,6 +301,24 @@ def c09_d(ctx):
               node=bad[0] if bad else r['restores'][0][2])
 
 
+def _float_buffer(ctx, fn, bufs):
+    """The chain buffer holds floats whatever the dtype of the start point."""
+    for (name, stmt) in bufs:
+        c = stmt.value
+        ex = ctx.ex(fn)
+        dt = [ex.raw(k.value) for k in c.keywords if k.arg == 'dtype'] if isinstance(c, ast.Call) \
+            else []
+        if isinstance(c, ast.Call) and len(c.args) > 1:
+            dt.append(ex.raw(c.args[1]))
+        ok = all(d in (('name', 'float'), ('global', 'builtins.float'), ('global', 'numpy.float64'),
+                       ('const', 'float64'), ('const', 'float'), ('global', 'numpy.double'))
+                 for d in dt)
+        ctx.check(ok, fn, 'chain buffer is a float array', 'np.empty(shape) (float64)',
+                  'the chain buffer takes its dtype from {}: with an integer start point every '
+                  'stored state is truncated and the next iteration restarts from the truncated '
+                  'row'.format([show(d) for d in dt]), fn=fn, node=stmt)
+
+
 @obligation('C09-e', 'T5', 'the requested number of states is returned', floor=4,
             necessary='an off-by-one returns the start point or loses a sample')
 def c09_e(ctx):
@@ -332,9 +350,11 @@ def c09_e(ctx):
             ex.term(n.value) == ('param', 'params0'))]
     ctx.check(bool(st0), f, 'row 0 is the start point', 'samples[0] = params0',
               'row 0 is not initialised with the start point', fn=f, node=f.node)
+    _float_buffer(ctx, f, bufs)
     g = ctx.fn(M + ':nuts')
     exg = ctx.ex(g)
     bufs = local_assigned(ctx, g, 'np.empty((n_iter + 1,) + params0.shape)')
+    _float_buffer(ctx, g, bufs)
     ctx.check(len(bufs) == 1, g, 'allocation', 'n_iter + 1 rows',
               'the NUTS buffer does not have n_iter + 1 rows', fn=g,
               node=bufs[0][1] if bufs else g.node)
